@@ -220,13 +220,19 @@ func init() {
 		k := 0
 		for _, L := range lens {
 			for _, nk := range shapes {
-				r := c.R.Fork()
-				tc := c08LongRun(r, fmt.Sprintf("c08_long_%d", k), L, nk)
-				k++
-				c.Or.Case(fmt.Sprint(tc.Opt, tc.Enc, L, nk, tc.IDs), true)
-				c.Or.Count("stream:longrun")
-				c.Or.Count(fmt.Sprintf("runbytes:%d", L))
-				report(tc, c08Eval(c, tc, 60*time.Second, true))
+				// once without inner prefixes (the step is then stored as a 16-bit length), once with random options
+				for variant := 0; variant < 2; variant++ {
+					r := c.R.Fork()
+					tc := c08LongRun(r, fmt.Sprintf("c08_long_%d", k), L, nk)
+					if variant == 0 {
+						tc.Opt[1], tc.Opt[3] = 0, 0
+					}
+					k++
+					c.Or.Case(fmt.Sprint(tc.Opt, tc.Enc, L, nk, tc.IDs), true)
+					c.Or.Count("stream:longrun")
+					c.Or.Count(fmt.Sprintf("runbytes:%d", L))
+					report(tc, c08Eval(c, tc, 60*time.Second, true))
+				}
 			}
 		}
 	})
